@@ -11,7 +11,7 @@ if [ -z "$DIR" ]; then
   CLEAN=1
 fi
 OUT=$(mktemp /var/tmp/gotest-XXXX.json)
-(cd $DIR && go test -mod=mod -json -vet=off -count=1 -timeout 25m ${BASELINE_OVERLAY:+-overlay $BASELINE_OVERLAY} ./... > $OUT 2>/dev/null)
+(cd $DIR && go test -mod=mod -json -vet=off -count=1 -timeout 120m ${BASELINE_OVERLAY:+-overlay $BASELINE_OVERLAY} ./... > $OUT 2>/dev/null)
 python3 - "$OUT" <<'PY'
 import json, sys
 base = set(json.load(open('/root/.vp/BASELINE.json'))['stable_pass'])
